@@ -303,9 +303,8 @@ class VarInt32(AbstractType[int]):
 
     @classmethod
     def encode(cls, value: int) -> bytes:
-        # bring it in line with the java binary repr
-        value &= 0xFFFFFFFF
-        return UnsignedVarInt32.encode((value << 1) ^ (value >> 31))
+        # zig-zag encoding, truncated to the java 32 bit binary repr
+        return UnsignedVarInt32.encode(((value << 1) ^ (value >> 31)) & 0xFFFFFFFF)
 
 
 class VarInt64(AbstractType[int]):
@@ -326,12 +325,11 @@ class VarInt64(AbstractType[int]):
 
     @classmethod
     def encode(cls, value: int) -> bytes:
-        # bring it in line with the java binary repr
-        value &= 0xFFFFFFFFFFFFFFFF
-        v = (value << 1) ^ (value >> 63)
+        # zig-zag encoding, truncated to the java 64 bit binary repr
+        v = ((value << 1) ^ (value >> 63)) & 0xFFFFFFFFFFFFFFFF
         ret = b""
         while (v & 0xFFFFFFFFFFFFFF80) != 0:
-            b = (value & 0x7F) | 0x80
+            b = (v & 0x7F) | 0x80
             ret += struct.pack("B", b)
             v >>= 7
         ret += struct.pack("B", v)
